@@ -30,6 +30,8 @@ pub enum POp {
     Shuffle(u8, u16),
     Board,
     Evaluate(u16),
+    /// evaluate, remember the proposal, set another board, then submit the remembered move there
+    EvalSetOffer(u16, Root),
 }
 
 #[derive(Clone, Debug, Serialize, Deserialize, PartialEq)]
@@ -286,6 +288,22 @@ fn run_case(c: &PluginCase, st: &mut Stats) -> Result<(), String> {
                         }
                     }
                 }
+                POp::EvalSetOffer(k, r) => {
+                    let t = CountingTimeout::new(*k as u64);
+                    let (mv, _score) = e.evaluate(&t);
+                    let Some(mv) = mv else { continue };
+                    let mv = from_cm(mv);
+                    if !m.pos.legal().contains(&mv) {
+                        return Err(format!("C15 after [{}]: evaluate proposes {mv}, which is not legal at `{}`", trace.join(" "), m.pos.fen()));
+                    }
+                    let Some(p) = build_root(r) else { continue };
+                    e.set_board(to_board(&p)?);
+                    m.set(p);
+                    explicit_set = true;
+                    trace.push(format!("evaluate->{mv} set_board"));
+                    flagged |= play(e, &mut m, mv, &mut trace, st)?;
+                    st.class("proposal of an earlier position offered after set_board");
+                }
                 POp::Board => board_matches(e, &m.pos, "board()")?,
                 POp::Evaluate(k) => {
                     let t = CountingTimeout::new(*k as u64);
@@ -351,6 +369,7 @@ fn strategy() -> impl Strategy<Value = PluginCase> {
         4 => (1u8..6, any::<u16>()).prop_map(|(r, s)| POp::Shuffle(r, s)),
         1 => Just(POp::Board),
         1 => prop_oneof![Just(0u16), 1u16..200, 200u16..3000].prop_map(POp::Evaluate),
+        1 => (20u16..400, root_strategy(20)).prop_map(|(k, r)| POp::EvalSetOffer(k, r)),
     ];
     prop::collection::vec(op, 1..30).prop_map(|ops| PluginCase { ops })
 }
